@@ -1035,13 +1035,13 @@ parser! {
         elements
       }
     }
-    rule initial_step() -> Step = tok(TokenType::InitialStep) _ name:step_name() _ tok(TokenType::Colon) _ action_associations:action_association() ** (_ tok(TokenType::Semicolon) _) tok(TokenType::EndStep) {
+    rule initial_step() -> Step = tok(TokenType::InitialStep) _ name:step_name() _ tok(TokenType::Colon) _ action_associations:(a:action_association() _ tok(TokenType::Semicolon) _ { a })* tok(TokenType::EndStep) {
       Step{
         name,
         action_associations,
        }
     }
-    rule step() -> ElementKind = tok(TokenType::Step) _ name:step_name() _ tok(TokenType::Colon) _ action_associations:semisep(<action_association()>) _ tok(TokenType::EndStep) {
+    rule step() -> ElementKind = tok(TokenType::Step) _ name:step_name() _ tok(TokenType::Colon) _ action_associations:(a:action_association() _ tok(TokenType::Semicolon) _ { a })* tok(TokenType::EndStep) {
       ElementKind::step(
         name,
         action_associations
